@@ -72,6 +72,7 @@ type vConn struct {
 	in     chan []byte
 	closed chan struct{}
 	isDown bool
+	gone   bool // the master has closed its end of the connection
 	log    []vCall
 	buf    []byte // the connection's receive buffer: reused for every packet, as the real driver does
 }
@@ -154,6 +155,7 @@ func (c *vConn) master(packets [][]byte) {
 		case <-c.closed:
 		}
 	case endLost:
+		c.gone = true
 		close(c.in)
 	}
 }
@@ -176,7 +178,8 @@ func (c *vConn) ReadPacket() ([]byte, error) {
 }
 
 func (c *vConn) HandleErrorPacket(data []byte) error {
-	return &vMasterError{code: uint16(data[1]) | uint16(data[2])<<8, msg: string(data[9:])}
+	// the driver's own error type, so that code inspecting it (type assertion, Number) sees what it sees natively
+	return &mysql.MySQLError{Number: uint16(data[1]) | uint16(data[2])<<8, Message: string(data[9:])}
 }
 
 func (c *vConn) Close() error {
@@ -184,6 +187,11 @@ func (c *vConn) Close() error {
 	if !c.isDown {
 		c.isDown = true
 		close(c.closed)
+	}
+	if c.gone {
+		// the driver says goodbye (COM_QUIT) before it closes the socket; on a connection the master
+		// has already dropped that write fails and Close reports it (the socket is closed all the same)
+		return errConnLost
 	}
 	return nil
 }
@@ -272,6 +280,7 @@ const (
 	scNotice
 	scCancelAndLost
 	scHandlerAndCancel // the handler rejects the first transaction while the caller cancels
+	scHandlerAndLost   // the handler rejects the first transaction and the master drops the connection after its last packet
 	scKinds
 )
 
@@ -301,6 +310,9 @@ func VH_C05_Stream(cause, npk, ahead, hmode int) {
 		for i := range sc.errMsg {
 			vhAssume(sc.errMsg[i] >= 0x20 && sc.errMsg[i] < 0x7f) // printable message text
 		}
+	case scHandlerAndLost:
+		sc.end = endLost
+		sc.pipe = true // natively: a write to the departed master fails at once, so Close() reports an error
 	case scLost, scCancelAndLost:
 		sc.end = endLost
 	case scFactory:
@@ -341,7 +353,7 @@ func VH_C05_Stream(cause, npk, ahead, hmode int) {
 		vhEnvDone(evHandlerExit + delivered)
 		delivered++
 		inHandler = false
-		if (cause == scHandler || cause == scHandlerAndCancel) && delivered == 1 {
+		if (cause == scHandler || cause == scHandlerAndCancel || cause == scHandlerAndLost) && delivered == 1 {
 			return errHandler
 		}
 		return nil
@@ -367,7 +379,7 @@ func VH_C05_Stream(cause, npk, ahead, hmode int) {
 
 	// ---- C06: the reason the stream ended is reported ----
 	switch cause {
-	case scHandler, scHandlerAndCancel:
+	case scHandler, scHandlerAndCancel, scHandlerAndLost:
 		if delivered >= 1 {
 			vhAssert(err != nil, "a handler failure makes Stream return an error")
 		}
@@ -452,10 +464,15 @@ func VH_C07_Handshake(nameLen int) {
 
 // VH_C07_Attempts: up to `attempts` failed attempts followed by a successful one on the
 // same streamer against a master that serves the log from whatever position is requested.
-// Log: DDL transactions ending at offsets 200, 300, 400 in bin.000001 (start 100).
+// Log: bin.999999 (start 100) holds DDL transactions ending at 200 and 300 and is then rotated
+// to bin.1000000 (a file name that sorts BEFORE the old one), which holds one ending at 400.
 func VH_C07_Attempts(attempts int) {
-	ends := []uint32{200, 300, 400}
-	starts := []uint32{100, 200, 300}
+	const oldFile, newFile = "bin.999999", "bin.1000000"
+	type logTx struct {
+		file       string
+		start, end uint32
+	}
+	log := []logTx{{oldFile, 100, 200}, {oldFile, 200, 300}, {newFile, 4, 400}}
 	sc := &vScript{pipe: true}
 	var requested []uint32
 	var files []string
@@ -463,9 +480,19 @@ func VH_C07_Attempts(attempts int) {
 		requested = append(requested, offset)
 		files = append(files, file)
 		pk := [][]byte{vwRotate(file, uint64(offset)), vwFDE()}
-		for i := range ends {
-			if starts[i] >= offset {
-				pk = append(pk, vwQuery("create table t"+string(rune('0'+i))+" (a int)", ends[i]))
+		cur := file
+		for i, tx := range log {
+			if tx.file != cur {
+				if cur != oldFile {
+					continue
+				}
+				// end of the old file: the real ROTATE event, then the new file's head
+				pk = append(pk, vwEv(4, 350, append([]byte{4, 0, 0, 0, 0, 0, 0, 0}, newFile...)), vwRotate(newFile, 4), vwFDE())
+				cur = newFile
+				offset = 4
+			}
+			if tx.start >= offset {
+				pk = append(pk, vwQuery("create table t"+string(rune('0'+i))+" (a int)", tx.end))
 			}
 		}
 		return pk
@@ -473,9 +500,9 @@ func VH_C07_Attempts(attempts int) {
 	env := vhStartEnv(sc)
 	defer env.stop()
 	s, _ := NewStreamer(env.dsn(), 9, &vMapper{})
-	s.SetBinlogPosition(Position{Filename: "bin.000001", Offset: 100})
+	s.SetBinlogPosition(Position{Filename: oldFile, Offset: 100})
 	var accepted []int64 // end offsets of accepted transactions, in order
-	ghost := int64(100)
+	ghost := Position{Filename: oldFile, Offset: 100}
 	for a := 0; a <= attempts; a++ {
 		last := a == attempts
 		fault := -1
@@ -506,9 +533,13 @@ func VH_C07_Attempts(attempts int) {
 				return errHandler
 			}
 			ndeliv++
-			vhAssert(t.NowPosition.Offset == ghost, "a delivered transaction starts at the last accepted boundary")
+			vhAssert(t.NextPosition.Filename == log[len(accepted)].file && t.NextPosition.Offset == int64(log[len(accepted)].end), "transactions arrive in log order with their end labels")
 			accepted = append(accepted, t.NextPosition.Offset)
-			ghost = t.NextPosition.Offset
+			ghost = t.NextPosition
+			if len(accepted) == 2 {
+				// the rotation that follows the second transaction moves the boundary into the new file
+				ghost = Position{Filename: newFile, Offset: 4}
+			}
 			return nil
 		})
 		_ = err
@@ -516,14 +547,13 @@ func VH_C07_Attempts(attempts int) {
 		vhQuiesce()
 		// every attempt announces checksum awareness on ITS connection before it requests the dump
 		calls := env.calls()
-		nset, ndump := 0, 0
+		nset := 0
 		for i, c := range calls {
 			if c.kind == 0 {
 				nset++
 				vhAssert(c.query == "SET @master_binlog_checksum=@@global.binlog_checksum", "checksum awareness is announced with the documented statement")
 			}
 			if c.kind == 1 {
-				ndump++
 				vhAssert(i > 0 && calls[i-1].kind == 0, "every dump request is preceded by the checksum announcement of the same attempt")
 			}
 		}
@@ -533,13 +563,15 @@ func VH_C07_Attempts(attempts int) {
 			vhAssert(len(requested) == before, "a failed dump request is not served")
 		} else {
 			vhAssert(len(requested) == before+1, "exactly one dump request per attempt")
-			vhAssert(int64(requested[before]) == ghostBefore, "the dump request carries the stored resume position")
-			vhAssert(files[before] == "bin.000001", "dump request names the file of the stored position")
+			vhAssert(int64(requested[before]) == ghostBefore.Offset, "the dump request carries the offset of the stored resume position")
+			vhAssert(files[before] == ghostBefore.Filename, "the dump request names the file of the stored resume position")
 		}
-		vhAssert(s.binlogPosition().Offset == ghost, "the stored position is the boundary after the last accepted transaction")
+		// (in this log nothing can end an attempt between the second transaction and the ROTATE that
+		// follows it, so a boundary after two accepted transactions is always the rotation target)
+		kept := s.binlogPosition()
+		vhAssert(kept.Filename == ghost.Filename && kept.Offset == ghost.Offset, "the stored position is the boundary after the last accepted transaction (moved by a consumed rotation)")
 	}
-	// every dump request asked for the boundary that had been reached before it
-	vhAssert(requested[0] == 100, "first attempt starts at the configured position")
+	vhAssert(requested[0] == 100 && files[0] == oldFile, "first attempt starts at the configured position")
 	vhAssert(len(accepted) == 3 && accepted[0] == 200 && accepted[1] == 300 && accepted[2] == 400, "over all attempts every transaction is accepted exactly once, in order")
 	vhCover("attempts")
 }
